@@ -562,12 +562,69 @@ func (w *World) checkCloseOnly() {
 	bad := func(fn *ssa.Function, ins ssa.Instruction, why string) {
 		w.protoErrs = append(w.protoErrs, fmt.Sprintf("%s: %s (%s)", funcKey(fn), why, w.fset.Position(ins.Pos())))
 	}
-	useOK := func(fn *ssa.Function, v ssa.Value) {
+	// A close-only channel may be handed on (to a parameter of a function whose body is loaded, into a closure, into
+	// another struct field): the value is followed and on every path it may only be received from, closed, compared
+	// or converted to a receive-only channel. Fields it is stored into ("derived" fields) are checked program-wide for
+	// the same no-send discipline on everything loaded from them.
+	seenVal := map[ssa.Value]bool{}
+	derived := map[string]bool{}
+	var derivedQueue []string
+	var useOK func(fn *ssa.Function, v ssa.Value)
+	var cellOK func(fn *ssa.Function, addr ssa.Value)
+	cellOK = func(fn *ssa.Function, addr ssa.Value) {
+		if seenVal[addr] {
+			return
+		}
+		seenVal[addr] = true
+		if addr.Referrers() == nil {
+			return
+		}
+		for _, r := range *addr.Referrers() {
+			switch u := r.(type) {
+			case *ssa.DebugRef:
+			case *ssa.Store:
+				if u.Addr != addr {
+					bad(fn, u, "address of a variable holding a close-only channel is stored")
+				}
+			case *ssa.UnOp:
+				if u.Op == token.MUL {
+					useOK(fn, u)
+				} else {
+					bad(fn, u, "address of a variable holding a close-only channel used")
+				}
+			case *ssa.MakeClosure:
+				cf, _ := u.Fn.(*ssa.Function)
+				for i, bnd := range u.Bindings {
+					if bnd == addr {
+						if cf != nil && i < len(cf.FreeVars) {
+							cellOK(cf, cf.FreeVars[i])
+						} else {
+							bad(fn, u, "variable holding a close-only channel captured by an unknown closure")
+						}
+					}
+				}
+			default:
+				bad(fn, r, "address of a variable holding a close-only channel escapes")
+			}
+		}
+	}
+	useOK = func(fn *ssa.Function, v ssa.Value) {
+		if seenVal[v] {
+			return
+		}
+		seenVal[v] = true
+		if v.Referrers() == nil {
+			return
+		}
 		for _, r := range *v.Referrers() {
 			switch u := r.(type) {
 			case *ssa.DebugRef:
 			case *ssa.UnOp:
 				if u.Op != token.ARROW {
+					bad(fn, u, "close-only channel used in "+u.String())
+				}
+			case *ssa.BinOp:
+				if u.Op != token.EQL && u.Op != token.NEQ {
 					bad(fn, u, "close-only channel used in "+u.String())
 				}
 			case *ssa.Select:
@@ -576,15 +633,107 @@ func (w *World) checkCloseOnly() {
 						bad(fn, u, "send on a close-only channel")
 					}
 				}
+			case *ssa.Send:
+				bad(fn, u, "send on (or of) a close-only channel")
 			case *ssa.Call:
-				if b, ok := u.Call.Value.(*ssa.Builtin); !ok || b.Name() != "close" {
+				if b, ok := u.Call.Value.(*ssa.Builtin); ok && b.Name() == "close" {
+					continue
+				}
+				// a parameter of receive-only channel type can only be received from (Go's type system)
+				if recvOnlyArg(u, v) {
+					continue
+				}
+				callee := u.Call.StaticCallee()
+				if callee == nil || len(callee.Blocks) == 0 || u.Call.Value == v {
 					bad(fn, u, "close-only channel passed to "+u.Call.Value.Name())
+					continue
+				}
+				for i, a := range u.Call.Args {
+					if a == v {
+						if i < len(callee.Params) {
+							useOK(callee, callee.Params[i])
+						} else {
+							bad(fn, u, "close-only channel passed to "+u.Call.Value.Name())
+						}
+					}
+				}
+			case *ssa.MakeClosure:
+				cf, _ := u.Fn.(*ssa.Function)
+				for i, bnd := range u.Bindings {
+					if bnd == v {
+						if cf != nil && i < len(cf.FreeVars) {
+							useOK(cf, cf.FreeVars[i])
+						} else {
+							bad(fn, u, "close-only channel captured by an unknown closure")
+						}
+					}
+				}
+			case *ssa.ChangeType:
+				if ch, ok := u.Type().Underlying().(*types.Chan); ok && ch.Dir() == types.RecvOnly {
+					continue
+				}
+				useOK(fn, u)
+			case *ssa.Store:
+				if al, isAlloc := u.Addr.(*ssa.Alloc); isAlloc && u.Val == v {
+					cellOK(fn, al) // a local variable (possibly captured by reference)
+					continue
+				}
+				fa, ok := u.Addr.(*ssa.FieldAddr)
+				if !ok || u.Val != v {
+					bad(fn, u, "close-only channel stored outside a struct field")
+					continue
+				}
+				k := fieldKeyOf(fa.X.Type().Underlying().(*types.Pointer).Elem(), fa.Field)
+				if k == "" {
+					bad(fn, u, "close-only channel stored into a field of an unnamed struct")
+					continue
+				}
+				if !derived[k] && !w.closeOnly[k] {
+					derived[k] = true
+					derivedQueue = append(derivedQueue, k)
 				}
 			default:
 				bad(fn, r, "close-only channel escapes through "+r.String())
 			}
 		}
 	}
+	defer func() {
+		// loads of derived fields, program-wide
+		for len(derivedQueue) > 0 {
+			k := derivedQueue[0]
+			derivedQueue = derivedQueue[1:]
+			for _, fn := range w.funcs {
+				for _, b := range fn.Blocks {
+					for _, ins := range b.Instrs {
+						switch x := ins.(type) {
+						case *ssa.FieldAddr:
+							if fieldKeyOf(x.X.Type().Underlying().(*types.Pointer).Elem(), x.Field) != k {
+								continue
+							}
+							for _, r := range *x.Referrers() {
+								switch u := r.(type) {
+								case *ssa.DebugRef, *ssa.Store:
+								case *ssa.UnOp:
+									if u.Op == token.MUL {
+										useOK(fn, u)
+									} else {
+										bad(fn, u, "address of a field holding a close-only channel used")
+									}
+								default:
+									bad(fn, r, "address of a field holding a close-only channel escapes")
+								}
+							}
+						case *ssa.Field:
+							if fieldKeyOf(x.X.Type(), x.Field) == k {
+								useOK(fn, x)
+							}
+						}
+					}
+				}
+			}
+		}
+		sort.Strings(w.protoErrs)
+	}()
 	for _, fn := range w.funcs {
 		if fn.Pkg == nil {
 			continue
@@ -675,4 +824,31 @@ func (w *World) calledProvedSet() map[string]bool {
 		}
 	}
 	return w.calledProved
+}
+
+// recvOnlyArg: every position at which v is an argument of the call has a parameter of receive-only channel type.
+func recvOnlyArg(c *ssa.Call, v ssa.Value) bool {
+	sig := c.Call.Signature()
+	if sig == nil || c.Call.IsInvoke() {
+		return false
+	}
+	found := false
+	for i, a := range c.Call.Args {
+		if a != v {
+			continue
+		}
+		pi := i
+		if sig.Recv() != nil {
+			pi = i - 1
+		}
+		if pi < 0 || pi >= sig.Params().Len() || (sig.Variadic() && pi >= sig.Params().Len()-1) {
+			return false
+		}
+		ch, ok := sig.Params().At(pi).Type().Underlying().(*types.Chan)
+		if !ok || ch.Dir() != types.RecvOnly {
+			return false
+		}
+		found = true
+	}
+	return found
 }
